@@ -668,7 +668,17 @@ func concretizeIndex(si Sym, elems []value, loadOnly bool) int {
 	}
 	var classes []*class
 	byVal := map[value]*class{}
+	var nilSlices *class
 	for i, e := range elems {
+		if sl, ok := e.([]value); ok && sl == nil {
+			// all nil slices of a table of slices (e.g. a byte -> replacement table) form one class
+			if nilSlices == nil {
+				nilSlices = &class{e, nil}
+				classes = append(classes, nilSlices)
+			}
+			nilSlices.idxs = append(nilSlices.idxs, i)
+			continue
+		}
 		if !indexable(e) {
 			classes = append(classes, &class{e, []int{i}})
 			continue
@@ -695,6 +705,75 @@ func concretizeIndex(si Sym, elems []value, loadOnly bool) int {
 		}
 	}
 	panic("unreachable")
+}
+
+// selectTerm builds, without forking, the value of elems[si] for a table of
+// concrete integers of one Go type: an ite chain over the classes of equal
+// values, with the entries that equal their own index (identity tables such
+// as strings.byteReplacer) covered by the index itself.
+func selectTerm(si Sym, elems []value) (value, bool) {
+	if len(elems) == 0 || len(elems) > 65536 {
+		return nil, false
+	}
+	w, signed := 0, false
+	switch elems[0].(type) {
+	case uint8:
+		w = 8
+	case int8:
+		w, signed = 8, true
+	case uint16:
+		w = 16
+	case int16:
+		w, signed = 16, true
+	case uint32:
+		w = 32
+	case int32:
+		w, signed = 32, true
+	case uint64, uint:
+		w = 64
+	case int64, int:
+		w, signed = 64, true
+	default:
+		return nil, false
+	}
+	t0 := fmt.Sprintf("%T", elems[0])
+	byVal := map[uint64][]int{}
+	var order []uint64
+	var ident []int
+	mask := ^uint64(0)
+	if w < 64 {
+		mask = (uint64(1) << uint(w)) - 1
+	}
+	for i, e := range elems {
+		if fmt.Sprintf("%T", e) != t0 {
+			return nil, false
+		}
+		u := asUint64FromAny(e) & mask
+		if u == uint64(i)&mask && i <= int(mask) {
+			ident = append(ident, i)
+			continue
+		}
+		if _, ok := byVal[u]; !ok {
+			order = append(order, u)
+		}
+		byVal[u] = append(byVal[u], i)
+	}
+	if len(order) > 48 {
+		return nil, false
+	}
+	i64 := resize(si, 64, false).T
+	var term string
+	if len(ident) > 0 {
+		term = resize(si, w, false).T
+	} else {
+		last := order[len(order)-1]
+		order = order[:len(order)-1]
+		term = bv(last, w)
+	}
+	for k := len(order) - 1; k >= 0; k-- {
+		term = fmt.Sprintf("(ite %s %s %s)", rangesTerm(i64, byVal[order[k]]), bv(order[k], w), term)
+	}
+	return Sym{T: term, W: w, Signed: signed}, true
 }
 
 func rangesTerm(i64 string, idxs []int) string {
